@@ -1,7 +1,119 @@
-(** C02 — exported statements. *)
-From Coq Require Import List Bool ZArith.
-Require Import Nib.C17.AnteFacts Nib.C17.MsgTree Nib.C02.Model Nib.C02.Spec Nib.C02.Proofs.
+(** C02 — an Ethereum tx message executes only behind the EVM ante pipeline.
+    This file holds only the exported statements.
 
+    [c : cfg] is what the code is (read off the generated facts: the two decorator lists, the extension-option
+    switch, the installed SigGasConsumer, what the wasm handler checks); [w : world] is the outside world:
+    which addresses are Ethereum-key-derived ([w_is_eth]), which contracts dispatch messages for whom, the gov
+    account, registered interchain accounts and the ICA allow-list.  Message trees are arbitrary: any depth,
+    any mix of authz MsgExec / wasm dispatch / gov proposals / ICA packets, any sibling position, any grants.
+
+    Hypotheses standing for cryptography / the SDK (not axioms; premises of every theorem):
+      Hdisj = [world_ok w] (module, contract, interchain-account and sink addresses are not Ethereum-derived)
+              and [tx_wf w x] (the address a MsgEthereumTx signature recovers to IS Ethereum-derived);
+      Hsig  = [sig_accepts_eth c = false] inside [cfg_ok c] (the Cosmos signature path turns eth_secp256k1
+              keys away) — tied to the generated fact "SigGasConsumer = DefaultSigVerificationGasConsumer inside
+              SigGasConsumeDecorator" and probed by the harness on every run. *)
+From Coq Require Import List Bool Arith ZArith.
+Import ListNotations.
+Require Import Nib.C17.AnteFacts Nib.C17.MsgTree Nib.C02.Model Nib.C02.Spec Nib.C02.Check Nib.C02.Proofs.
+Local Open Scope Z_scope.
+
+(** One transaction, any shape: every Ethereum message whose handler ran ([added] to the ghost trace) was a
+    DIRECT message of a transaction carrying the EVM extension option, and the EVM ante chain admitted the
+    transaction's messages in order — nonce equal to the sender's sequence and consumed, gas limit × price
+    moved from the sender to the fee collector ([admit_seq]).  The grants invariant is kept. *)
+Theorem C02_eth_handler_only_behind_evm_ante :
+  forall (c : cfg) (w : world) (s : st) (x : tx),
+    cfg_ok c -> world_ok w -> tx_wf w x -> grants_ok w s ->
+    let s' := fst (deliver c w s x) in
+    grants_ok w s' /\
+    exists added, ran s' = added ++ ran s /\ forall l, In l added -> admitted_in s x l.
+Proof. exact deliver_eth_only_behind_evm_ante. Qed.
+Print Assumptions C02_eth_handler_only_behind_evm_ante.
+
+(** Over every history: each Ethereum message that ever ran did so in some transaction of the history,
+    as a direct message, behind the EVM ante chain, in the state that transaction was delivered in. *)
+Theorem C02_history_eth_handler_only_behind_evm_ante :
+  forall (c : cfg) (w : world) (s0 : st) (h : list tx),
+    cfg_ok c -> world_ok w -> Forall (tx_wf w) h -> grants_ok w s0 ->
+    grants_ok w (run_history c w s0 h) /\
+    forall l, In l (ran (run_history c w s0 h)) ->
+      In l (ran s0) \/ exists h1 x h2, h = h1 ++ x :: h2 /\ admitted_in (run_history c w s0 h1) x l.
+Proof. exact history_eth_only_behind_evm_ante. Qed.
+Print Assumptions C02_history_eth_handler_only_behind_evm_ante.
+
+(** A message whose signer is not Ethereum-derived — at ANY nesting depth under ANY wrappers — never reaches
+    the Ethereum handler, never touches an Ethereum account's nonce or balance, never creates a grant whose
+    granter is Ethereum-derived (structural induction over message trees). *)
+Theorem C02_no_wrapper_reaches_the_eth_handler :
+  forall (w : world) (c : cfg), world_ok w -> wasm_signer c = true ->
+  forall t, msg_wf w t -> forall s s', w_is_eth w (signer_msg t) = false -> grants_ok w s ->
+    run_msg c w t s = Some s' -> grants_ok w s' /\ frame w s s'.
+Proof. exact run_non_eth. Qed.
+Print Assumptions C02_no_wrapper_reaches_the_eth_handler.
+
+(** A transaction that does not go the EVM route leaves every Ethereum account's nonce and balance and the
+    ghost trace exactly as they were. *)
+Theorem C02_cosmos_tx_leaves_eth_accounts_untouched :
+  forall (w : world) (c : cfg), world_ok w -> wasm_signer c = true -> sig_on c = true -> sig_accepts_eth c = false ->
+  forall s x, tx_wf w x -> grants_ok w s -> route_tx c (t_ext x) = RouteNonEVM ->
+    let s' := fst (deliver c w s x) in
+    grants_ok w s' /\ ran s' = ran s /\
+    forall a, w_is_eth w a = true -> seq_of s' a = seq_of s a /\ bal_of s' a = bal_of s a.
+Proof. exact nonevm_deliver_frame. Qed.
+Print Assumptions C02_cosmos_tx_leaves_eth_accounts_untouched.
+
+(** Corollary: nobody can rewind an account nonce. *)
+Theorem C02_nonce_never_rewound :
+  forall (c : cfg) (w : world) (s : st) (x : tx),
+    cfg_ok c -> world_ok w -> tx_wf w x -> grants_ok w s ->
+    forall a, w_is_eth w a = true -> (seq_of s a <= seq_of (fst (deliver c w s x)) a)%nat.
+Proof. exact nonce_never_rewound. Qed.
+Print Assumptions C02_nonce_never_rewound.
+
+(** Corollary: nobody receives a gas refund that was not paid for — the refund the handler credits is covered
+    by what the EVM ante chain took from the same sender in the same transaction. *)
+Theorem C02_refund_covered_by_prepayment :
+  forall (c : cfg) (w : world) (s : st) (x : tx),
+    cfg_ok c -> e_vb c = true -> world_ok w -> tx_wf w x -> grants_ok w s ->
+    forall a, w_is_eth w a = true -> bal_of (fst (deliver c w s x)) a <= bal_of s a.
+Proof. exact refund_covered_by_prepayment. Qed.
+Print Assumptions C02_refund_covered_by_prepayment.
+
+(** What "admitted" means, as a function of the ante chain: with the gas and nonce decorators installed, a
+    successful EVM ante pass is an admission of every message in order. *)
+Theorem C02_evm_ante_admits :
+  forall c ms s s1, e_gas c = true -> e_seq c = true ->
+    evm_admit c ms s = Some s1 -> exists ls, direct_eth ms = Some ls /\ admit_seq s ls s1.
+Proof. exact evm_admit_admits. Qed.
+Print Assumptions C02_evm_ante_admits.
+
+Theorem C02_cfg_checker_sound : forall c, cfg_okb c = true -> cfg_ok c.
+Proof. exact cfg_okb_sound. Qed.
+Print Assumptions C02_cfg_checker_sound.
+
+(** The boolean checker evaluated on implementation traces is sound for [P]. *)
 Theorem C02_checker_sound : forall t, Pb t = true -> P t.
 Proof. exact Pb_sound. Qed.
 Print Assumptions C02_checker_sound.
+
+(** ---- each hypothesis is needed: dropping it is refuted by a concrete history ---- *)
+
+(** Hsig dropped (Cosmos signature path accepting eth_secp256k1 keys): handler ran in a tx without the EVM
+    extension option, nonce rewound, unpaid refund credited. *)
+Theorem C02_refuted_if_eth_keys_sign_cosmos_txs :
+  exists h x a, Forall (tx_wf harness_world) (h ++ [x]) /\ violated_by cfg_eth_keys_accepted h x a.
+Proof. exact refuted_if_eth_keys_sign_cosmos_txs. Qed.
+Print Assumptions C02_refuted_if_eth_keys_sign_cosmos_txs.
+
+(** The wasm handler's "signer must be the contract" check dropped. *)
+Theorem C02_refuted_if_wasm_signer_unchecked :
+  exists h x a, Forall (tx_wf harness_world) (h ++ [x]) /\ violated_by cfg_wasm_signer_unchecked h x a.
+Proof. exact refuted_if_wasm_signer_unchecked. Qed.
+Print Assumptions C02_refuted_if_wasm_signer_unchecked.
+
+(** The nonce decorator dropped from the EVM chain: a signed message executes twice. *)
+Theorem C02_refuted_if_nonce_decorator_dropped :
+  exists h l, ran (run_history cfg_no_nonce_check harness_world harness_init h) = [l; l].
+Proof. exact refuted_if_nonce_decorator_dropped. Qed.
+Print Assumptions C02_refuted_if_nonce_decorator_dropped.
